@@ -132,6 +132,41 @@ func (w *c20Worker) hostClient(b *c20Beh) *HostClient {
 type c20Call struct {
 	api string // client.DoRedirects, hostclient.DoRedirects, client.Get, client.GetTimeout, client.GetDeadline, client.Post, hostclient.Get, hostclient.Post
 	hdr string // canon, setcookie, lower  (DoRedirects only); userinfo (helpers)
+	src string // how the caller gave the request its body (DoRedirects with POST/PUT/PATCH), see c20BodySources
+}
+
+// the ways a caller can give a request a body
+var c20BodySources = []string{"string", "postargs", "raw", "stream", "writer", "multipart", "streamchunked"}
+
+const c20Boundary = "c20boundary"
+
+func c20SetBody(req *Request, src string) {
+	switch src {
+	case "string":
+		req.SetBodyString(c20Payload)
+		req.Header.SetContentType("text/c20")
+	case "raw":
+		req.SetBodyRaw([]byte(c20Payload))
+		req.Header.SetContentType("text/c20")
+	case "writer":
+		req.BodyWriter().Write([]byte(c20Payload)) //nolint:errcheck
+		req.Header.SetContentType("text/c20")
+	case "stream":
+		req.SetBodyStream(strings.NewReader(c20Payload), len(c20Payload))
+		req.Header.SetContentType("text/c20")
+	case "streamchunked":
+		req.SetBodyStream(strings.NewReader(c20Payload), -1)
+		req.Header.SetContentType("text/c20")
+	case "postargs":
+		req.Header.SetContentType("application/x-www-form-urlencoded")
+		req.PostArgs().Set("k", c20Payload)
+		req.PostArgs().Set("k2", "v2")
+	case "multipart":
+		body := "--" + c20Boundary + "\r\nContent-Disposition: form-data; name=\"k\"\r\n\r\n" + c20Payload + "\r\n--" + c20Boundary + "--\r\n"
+		req.Header.SetContentType("multipart/form-data; boundary=" + c20Boundary)
+		req.SetBodyString(body)
+		req.MultipartForm() //nolint:errcheck // the caller looked at its own form: the parsed form now hangs on the request
+	}
 }
 
 func (c c20Call) helper() bool { return !strings.HasSuffix(c.api, "DoRedirects") }
@@ -205,9 +240,8 @@ func (w *c20Worker) run(b *c20Beh, call c20Call) {
 		var resp Response
 		req.SetRequestURI(url)
 		req.Header.SetMethod(b.Init.Method)
-		if b.Init.Method == "POST" || b.Init.Method == "PUT" {
-			req.SetBodyString(c20Payload)
-			req.Header.SetContentType("text/c20")
+		if call.src != "" {
+			c20SetBody(&req, call.src)
 		}
 		c20SetCreds(&req, call.hdr)
 		if useHC {
@@ -224,7 +258,10 @@ func (w *c20Worker) judge(b *c20Beh, call c20Call, useHC bool, err error, status
 	reqs := w.net.Requests()
 	sig := b.chainSig()
 	mode := call.api + "/" + call.hdr
-	cs := vfRec{"api": call.api, "hdr": call.hdr, "init": b.Init, "hops": b.Hops, "expected": b.Sent, "result": b.Result}
+	if call.src != "" {
+		mode += "/" + call.src
+	}
+	cs := vfRec{"api": call.api, "hdr": call.hdr, "body_source": call.src, "init": b.Init, "hops": b.Hops, "expected": b.Sent, "result": b.Result}
 	viol := func(kind, detail string) {
 		obs := []vfRec{}
 		for _, rq := range reqs {
@@ -298,11 +335,17 @@ func (w *c20Worker) judge(b *c20Beh, call c20Call, useHC bool, err error, status
 			viol(kind, fmt.Sprintf("request #%d (after status %d) has method %s, specification says %s", i, prevStatus, rq.Method, e.Method))
 			return
 		}
-		wantBody := c20Payload
-		if call.helper() {
-			wantBody = "k=" + c20Payload
+		// the body the caller supplied is what the FIRST request carried on the wire
+		wantBody := string(reqs[0].Body)
+		if i == 0 && e.Body == "yes" && !strings.Contains(wantBody, c20Payload) {
+			viol("conformance:body-lost", fmt.Sprintf("the first request does not carry the caller's body: %q", rq.Body))
+			return
 		}
-		switch e.Body {
+		expect := e.Body
+		if expect == "yes" && i > 0 && strings.HasPrefix(call.src, "stream") {
+			expect = "any" // a body stream can be sent once only; the property does not say what a resend looks like
+		}
+		switch expect {
 		case "yes":
 			if string(rq.Body) != wantBody {
 				viol("conformance:body-lost", fmt.Sprintf("request #%d (after status %d) has body %q, want %q", i, prevStatus, rq.Body, wantBody))
@@ -310,7 +353,11 @@ func (w *c20Worker) judge(b *c20Beh, call c20Call, useHC bool, err error, status
 			}
 		case "no":
 			if len(rq.Body) != 0 {
-				viol("303-body", fmt.Sprintf("request #%d (after status %d) still has a body of %d bytes", i, prevStatus, len(rq.Body)))
+				kind := "conformance:body"
+				if prevStatus == 303 {
+					kind = "303-body"
+				}
+				viol(kind, fmt.Sprintf("request #%d (after status %d) still has a body of %d bytes: %q", i, prevStatus, len(rq.Body), rq.Body))
 				return
 			}
 		}
@@ -373,39 +420,47 @@ func c20Calls(b *c20Beh, quick bool, idx int) []c20Call {
 	if quick {
 		// every chain: Client.DoRedirects with canonical and lower-case credential names; the
 		// other shapes rotate over the chains
-		calls = []c20Call{{"client.DoRedirects", "canon"}, {"client.DoRedirects", "lower"}}
+		calls = []c20Call{{api: "client.DoRedirects", hdr: "canon"}, {api: "client.DoRedirects", hdr: "lower"}}
 		switch idx % 3 {
 		case 0:
-			calls = append(calls, c20Call{"client.DoRedirects", "setcookie"})
+			calls = append(calls, c20Call{api: "client.DoRedirects", hdr: "setcookie"})
 		case 1:
-			calls = append(calls, c20Call{"hostclient.DoRedirects", "canon"})
+			calls = append(calls, c20Call{api: "hostclient.DoRedirects", hdr: "canon"})
 		default:
-			calls = append(calls, c20Call{"hostclient.DoRedirects", "lower"})
+			calls = append(calls, c20Call{api: "hostclient.DoRedirects", hdr: "lower"})
 		}
 	} else {
-		calls = []c20Call{
-			{"client.DoRedirects", "canon"}, {"client.DoRedirects", "setcookie"}, {"client.DoRedirects", "lower"},
-			{"hostclient.DoRedirects", "canon"}, {"hostclient.DoRedirects", "lower"}, {"hostclient.DoRedirects", "setcookie"},
+		for _, api := range []string{"client.DoRedirects", "hostclient.DoRedirects"} {
+			for _, hdr := range []string{"canon", "setcookie", "lower"} {
+				calls = append(calls, c20Call{api: api, hdr: hdr})
+			}
+		}
+	}
+	// requests with a body: the way the caller supplied it rotates over chains and calls
+	if m := b.Init.Method; m == "POST" || m == "PUT" || m == "PATCH" {
+		for k := range calls {
+			calls[k].src = c20BodySources[(idx+k)%len(c20BodySources)]
 		}
 	}
 	// the helpers have a fixed limit of 16: a chain's expectation carries over iff the
 	// configured limit was not what ended it
 	if b.Result != "toomany" || b.Init.Max == defaultMaxRedirectsCount {
+		all := !quick || b.Init.Max == defaultMaxRedirectsCount
 		switch b.Init.Method {
 		case "GET":
-			if !quick || b.Init.Max == defaultMaxRedirectsCount {
-				calls = append(calls, c20Call{"client.Get", "userinfo"}, c20Call{"hostclient.Get", "userinfo"},
-					c20Call{"client.GetTimeout", "userinfo"}, c20Call{"client.GetDeadline", "userinfo"})
+			h := []c20Call{{api: "client.Get", hdr: "userinfo"}, {api: "hostclient.Get", hdr: "userinfo"},
+				{api: "client.GetTimeout", hdr: "userinfo"}, {api: "client.GetDeadline", hdr: "userinfo"}}
+			if all {
+				calls = append(calls, h...)
 			} else {
-				calls = append(calls, []c20Call{{"client.Get", "userinfo"}, {"hostclient.Get", "userinfo"},
-					{"client.GetTimeout", "userinfo"}, {"client.GetDeadline", "userinfo"}}[idx%4])
+				calls = append(calls, h[idx%4])
 			}
 		case "POST":
-			if !quick || b.Init.Max == defaultMaxRedirectsCount || idx%2 == 0 {
-				calls = append(calls, c20Call{"client.Post", "userinfo"})
+			if all || idx%2 == 0 {
+				calls = append(calls, c20Call{api: "client.Post", hdr: "userinfo"})
 			}
-			if !quick || b.Init.Max == defaultMaxRedirectsCount || idx%2 == 1 {
-				calls = append(calls, c20Call{"hostclient.Post", "userinfo"})
+			if all || idx%2 == 1 {
+				calls = append(calls, c20Call{api: "hostclient.Post", hdr: "userinfo"})
 			}
 		}
 	}
